@@ -7,10 +7,10 @@ from . import core, tlc, gridmodel
 CLAUSES = {
     "C08": {"P1_ViewsAgree", "P2_ConnectionsJoinBlocks", "P3_BackRefs", "P4_RocksRegistered",
             "C08_RenameKeeps", "raised"},
-    "C09": {"C09_PhysUnchanged", "C09_Minc"},
+    "C09": {"C09_PhysUnchanged", "C09_Minc", "C09_Embed"},
 }
 INVARIANTS = ["P1_ViewsAgree", "P2_ConnectionsJoinBlocks", "P3_BackRefs", "P4_RocksRegistered"]
-PROPS = ["Prop_C08_RenameKeeps", "Prop_C09_PhysUnchanged", "Prop_C09_Minc"]
+PROPS = ["Prop_C08_RenameKeeps", "Prop_C09_PhysUnchanged", "Prop_C09_Minc", "Prop_C09_Embed"]
 
 MC_CFG = """CONSTANTS
   Base = %(base)s
@@ -54,7 +54,7 @@ def run(pid, tier):
     mine = CLAUSES[pid]
 
     # ---- MC: the properties are consequences of the specified behaviour
-    depth, base, maxb = (6, ["a", "b", "c"], 6) if quick else (7, ["a", "b", "c", "d"], 6)
+    depth, base, maxb = (5, ["a", "b", "c"], 6) if quick else (6, ["a", "b", "c", "d"], 6)
     checks = "\n".join("INVARIANT " + i for i in INVARIANTS) + "\n" + "\n".join("PROPERTY " + p for p in PROPS)
     bs = "{" + ", ".join(json.dumps(b) for b in base) + "}"
     r = tlc.run_tlc("MC_T2Grid", None, workers=16, coverage=True, timeout=3000,
@@ -65,7 +65,7 @@ def run(pid, tier):
         raise tlc.MachineryError("the specification itself violates %s:\n%s" % (r.violated, "".join(r.trace[-3:])))
 
     # ---- S2C: all transitions of the bounded graph replayed on the real grid
-    sdepth, sbase = (4, ["a", "b", "c"]) if quick else (5, ["a", "b", "c", "d"])
+    sdepth, sbase = (5, ["a", "b", "c"]) if quick else (6, ["a", "b", "c"])
     mism, errors = gridmodel.s2c(t2grids, rep, sdepth, sbase, ["p", "q"], ["v", "s"],
                                  [(10, 90), (10, 40, 50)], 6)
     traces = [m["trace"] for m in mism]
@@ -188,6 +188,7 @@ class BigAdapter(gridmodel.Adapter):
     def __init__(self, t2grids, grid):
         self.m = t2grids
         self.grid = grid
+        self.reg = {}
         self.names = {}
         self.rnames = {}
         self.tokens = {}
@@ -210,27 +211,27 @@ class BigAdapter(gridmodel.Adapter):
     def project(self):
         g = self.grid
         self.tag_all()
-        blocks = [{"id": b._vid, "name": self.an(b.name), "rock": b.rocktype.name,
+        blocks = [{"id": self.vid(b), "name": self.an(b.name), "rock": b.rocktype.name,
                    "vol": self.tok(b.volume),
                    "ctr": self.tok(None if b.centre is None else float(np_dot(b.centre)))} for b in g.blocklist]
-        blockDict = sorted([self.an(k), v._vid] for k, v in g.block.items())
+        blockDict = sorted([self.an(k), self.vid(v)] for k, v in g.block.items())
         conns = []
         for c in g.connectionlist:
             minc = c.dircos is None
             s = 0 if not c.dircos else (1 if c.dircos > 0 else -1)
-            conns.append({"id": c._vid, "b1": getattr(c.block[0], '_vid', 0), "b2": getattr(c.block[1], '_vid', 0),
+            conns.append({"id": self.vid(c), "b1": (self.vid(c.block[0]) or 0), "b2": (self.vid(c.block[1]) or 0),
                           "d1": self.tok(c.distance[0]), "d2": self.tok(c.distance[1]), "area": self.tok(c.area),
                           "dir": int(c.direction), "cos": gridmodel.NOCOS if minc else s})
-        connDict = sorted([self.an(k[0]), self.an(k[1]), v._vid] for k, v in g.connection.items())
+        connDict = sorted([self.an(k[0]), self.an(k[1]), self.vid(v)] for k, v in g.connection.items())
         seen, connNames = set(), []
         for b in list(g.blocklist) + list(g.block.values()):
             if id(b) in seen:
                 continue
             seen.add(id(b))
-            connNames.append([b._vid, sorted([self.an(k[0]), self.an(k[1])] for k in b.connection_name)])
+            connNames.append([self.vid(b), sorted([self.an(k[0]), self.an(k[1])] for k in b.connection_name)])
         connNames.sort()
-        rocks = [{"id": r._vid, "name": r.name} for r in g.rocktypelist]
-        rockDict = sorted([k, v._vid] for k, v in g.rocktype.items())
+        rocks = [{"id": self.vid(r), "name": r.name} for r in g.rocktypelist]
+        rockDict = sorted([k, self.vid(v)] for k, v in g.rocktype.items())
         return {"blocks": blocks, "blockDict": blockDict, "conns": conns, "connDict": connDict,
                 "connNames": connNames, "rocks": rocks, "rockDict": rockDict}
 
@@ -242,7 +243,7 @@ class BigAdapter(gridmodel.Adapter):
             cp = list(range(1, len(g.connectionlist) + 1))
             rng.shuffle(bp)
             rng.shuffle(cp)
-            rev = sorted(c._vid for c in g.connectionlist if rng.random() < 0.3)
+            rev = sorted(self.vid(c) for c in g.connectionlist if rng.random() < 0.3)
             return {"op": "reorder", "bp": bp, "cp": cp, "rev": rev}
         if op == "demote_block":
             k = rng.randint(1, 3)
@@ -268,7 +269,7 @@ class BigAdapter(gridmodel.Adapter):
                 for i in a["cp"]:
                     c = g.connectionlist[i - 1]
                     names = tuple(b.name for b in c.block)
-                    cn.append(names[::-1] if c._vid in a["rev"] else names)
+                    cn.append(names[::-1] if self.vid(c) in a["rev"] else names)
                 g.reorder(bn, cn)
             elif a["op"] == "demote_block":
                 g.demote_block([self.rnames[n] for n in a["names"]])
